@@ -60,6 +60,7 @@ func execute(lines []string, drv *hx.Driver, seed uint64) (res outcome) {
 		}
 		return true
 	}
+	var needNaive func() bool
 	needRig := func() bool {
 		if r != nil {
 			return true
@@ -73,6 +74,34 @@ func execute(lines []string, drv *hx.Driver, seed uint64) (res outcome) {
 		ref = freshRef()
 		return tell("cfg " + strconv.Itoa(r.hashLen))
 	}
+	needNaive = func() bool {
+		if nr != nil {
+			return true
+		}
+		maxFiles, maxSize := 1000, int64(1<<20)
+		if opts["hlmax"] != "" {
+			maxFiles, _ = strconv.Atoi(opts["hlmax"])
+		}
+		if opts["hlsize"] != "" {
+			n, _ := strconv.Atoi(opts["hlsize"])
+			maxSize = int64(n)
+		}
+		var err error
+		nr, err = newNaiveRig(r, opts["hardlink"] == "1" || opts["part"] == "hardlink", maxFiles, maxSize)
+		if err != nil {
+			res.invalid = true
+			return false
+		}
+		if opts["part"] == "hardlink" {
+			return tell(fmt.Sprintf("hinit %d %d", maxFiles, maxSize))
+		}
+		return true
+	}
+	defer func() {
+		if nr != nil {
+			nr.close()
+		}
+	}()
 	defer func() {
 		if p := recover(); p != nil {
 			res.monitor = fmt.Sprintf("panic outside an operation: %v", p)
@@ -193,18 +222,8 @@ func execute(lines []string, drv *hx.Driver, seed uint64) (res outcome) {
 			if !ok || !refDigestOK(&remoteexecution.Digest{Hash: h, SizeBytes: sz}, r.hashLen) {
 				continue
 			}
-			if nr == nil {
-				var err error
-				maxFiles := 1000
-				if opts["hlmax"] != "" {
-					maxFiles, _ = strconv.Atoi(opts["hlmax"])
-				}
-				nr, err = newNaiveRig(r, opts["hardlink"] == "1", maxFiles)
-				if err != nil {
-					res.invalid = true
-					return
-				}
-				defer nr.close()
+			if !needNaive() {
+				return
 			}
 			for k := range r.cas.failing {
 				delete(r.cas.failing, k)
@@ -218,6 +237,63 @@ func execute(lines []string, drv *hx.Driver, seed uint64) (res outcome) {
 			}
 			if r.cas.puts > 0 || !sameBlobs(r.cas.blobs, expectedBlobs) {
 				res.monitor = abbreviate(line) + " changed the Content Addressable Storage"
+				return
+			}
+		case "casmiss": // casmiss <dig> <0|1>: the storage loses / regains a blob
+			if len(w) != 3 {
+				continue
+			}
+			if h, sz, ok := untokDig(w[1]); ok {
+				if w[2] == "1" {
+					r.cas.missing[casKeyOf(h, sz)] = true
+				} else {
+					delete(r.cas.missing, casKeyOf(h, sz))
+				}
+			}
+		case "hget", "hrm", "hmkdir": // <dig> <exec>: the hard-linking file fetcher and its cache directory
+			if len(w) != 3 || (w[2] != "0" && w[2] != "1") {
+				continue
+			}
+			h, sz, ok := untokDig(w[1])
+			if !ok || !refDigestOK(&remoteexecution.Digest{Hash: h, SizeBytes: sz}, r.hashLen) {
+				continue
+			}
+			if _, have := r.cas.blobs[casKeyOf(h, sz)]; !have {
+				continue
+			}
+			if !needNaive() {
+				return
+			}
+			if nr.cacheDir == nil {
+				continue
+			}
+			name, _ := nr.cacheName(r, h, sz, w[2] == "1")
+			id := nr.keyIDs[name]
+			modelled := opts["part"] == "hardlink"
+			if w[0] != "hget" {
+				nr.cacheFault(name, w[0] == "hmkdir")
+				res.flags["cache-dir-fault"]++
+				if modelled && !tell(fmt.Sprintf("%s %d", w[0], id)) {
+					return
+				}
+				continue
+			}
+			res.steps++
+			out, complaint := nr.getFile(r, h, sz, w[2] == "1")
+			listing, c2 := nr.cacheListing(r)
+			res.flags["hardlink-getfile-"+out]++
+			if complaint == "" {
+				complaint = c2
+			}
+			if complaint != "" {
+				res.monitor = abbreviate(line) + ": " + complaint
+				return
+			}
+			casHas := "1"
+			if r.cas.missing[casKeyOf(h, sz)] {
+				casHas = "0"
+			}
+			if modelled && !ask(fmt.Sprintf("hget %d %d %s", id, sz, casHas), out+" ["+listing+"]") {
 				return
 			}
 		case "race3": // race3 <D> <E> <T> p... : lookup parked on a lazily loaded directory while it is replaced
